@@ -206,7 +206,7 @@ def case_frozen(spec, out):
         return
     # 1. frozen x0 / bounds
     tr = probes.Trace()
-    kw = probes.build_kwargs(P, cfg, tr)
+    kw = probes.build_kwargs(P, dict(cfg, plain_inputs=True), tr)
     x0 = kw["x0"]
     bounds = kw["bounds"]
     probes.freeze(x0, bounds)
@@ -229,7 +229,7 @@ def case_frozen(spec, out):
         return
     # 1b. a box whose open sides are written as the largest finite double instead of infinity (read-only as well)
     tr = probes.Trace()
-    kw = probes.build_kwargs(P, cfg, tr)
+    kw = probes.build_kwargs(P, dict(cfg, plain_inputs=True), tr)
     bounds = np.array(kw["bounds"], dtype=float, copy=True)
     big = np.finfo(float).max
     bounds[:, 0] = np.where(np.isneginf(bounds[:, 0]), -big, bounds[:, 0])
